@@ -316,6 +316,10 @@ void do_printf_chars(S &sink, char t, format_options opts,
 template<Sink S>
 void do_printf_ints(S &sink, char t, format_options opts,
 		printf_size_mod szmod, va_struct *vsp, locale_options locale_opts = {}) {
+	// The 0 flag is ignored if a precision is given or if the field is left-justified.
+	if(opts.precision || opts.left_justify)
+		opts.fill_zeros = false;
+
 	switch(t) {
 	case 'd':
 	case 'i': {
